@@ -35,8 +35,15 @@ fn reg_op(rng: &mut Rng) -> Vec<u16> {
 
 /// plant: 0 none, 1 unimplemented opcode, 2 access outside mapped memory
 pub fn gen_prog(rng: &mut Rng, target_scaled: u64, plant: u8) -> Prog {
+    gen_prog_tail(rng, target_scaled, plant, None)
+}
+
+/// `tail`: Some((n, k)) appends a delay loop of n iterations and k two-byte fillers right before the
+/// final jump (used to place the end of the program exactly at a sync threshold); such programs do
+/// not use the timer so that their timing is additive.
+pub fn gen_prog_tail(rng: &mut Rng, target_scaled: u64, plant: u8, tail: Option<(u32, u32)>) -> Prog {
     let mut a = Asm::new(BASE);
-    let uses_timer = rng.chance(1, 2);
+    let uses_timer = rng.chance(1, 2) && tail.is_none();
     let nsubs = 1 + rng.below(3) as usize;
     let texts: Vec<Vec<u8>> = vec![b"hello\n".to_vec(), "tick \\ \u{3042}\u{1F600}\n".as_bytes().to_vec(), b"x".to_vec(), vec![]];
     a.label("start");
@@ -134,6 +141,17 @@ pub fn gen_prog(rng: &mut Rng, target_scaled: u64, plant: u8) -> Prog {
     for r in 0..5u8 {
         a.mov_l_to_label(r, &format!("result{}", r));
     }
+    if let Some((n, k)) = tail {
+        if n > 0 {
+            a.mov_l_imm(6, n);
+            a.label("tail_delay");
+            a.dec_l(6);
+            a.bcc8(6, "tail_delay");
+        }
+        for _ in 0..k {
+            a.w(0x0c88); // MOV.B R0L,R0L
+        }
+    }
     a.jmp_label("exit");
     for s in 0..nsubs {
         a.label(&format!("sub{}", s));
@@ -184,6 +202,60 @@ pub fn gen_prog(rng: &mut Rng, target_scaled: u64, plant: u8) -> Prog {
         exit_vaddr,
         desc: format!("blocks={} loops={} io-blocks={} timer={} plant={} target={}", nblocks, shape_loops, shape_io, uses_timer, plant, target_scaled),
         shape: [shape_loops, shape_io.min(3), uses_timer as u64, plant as u64],
+    }
+}
+
+/// total charged (scaled) states of a timer-less program up to (not including) its last
+/// instruction, and the charge of the last instruction, measured on a plain stepping loop
+fn measure(prog: &Prog, k: u64) -> Option<(u64, u64)> {
+    let mut cpu = Cpu::new();
+    for (i, b) in prog.image.iter().enumerate() {
+        crate::mon::real_poke(&mut cpu, BASE + i as u32, *b);
+    }
+    let _ = cpu.verif_init_registers();
+    cpu.verif_set_pc(BASE);
+    cpu.er[7] = 0x5f0000;
+    let exit = BASE + prog.exit_vaddr;
+    let mut total = 0u64;
+    let _ = crate::util::take_panic();
+    for _ in 0..30_000_000u64 {
+        let s = catch_unwind(AssertUnwindSafe(|| cpu.verif_step())).ok()?.ok()? as u64 * k;
+        if cpu.verif_pc() == exit {
+            return Some((total, s));
+        }
+        total += s;
+    }
+    None
+}
+
+/// generate a timer-less program whose final instruction crosses a multiple of 2,000,000
+pub fn tune_to_threshold(rng: &mut Rng, target: u64) -> Prog {
+    let k = 3u64;
+    let base_rng = rng.clone();
+    let gen = |tail: (u32, u32)| {
+        let mut r = base_rng.clone();
+        gen_prog_tail(&mut r, target, 0, Some(tail))
+    };
+    // advance the caller's generator as one generation does
+    let _ = gen_prog_tail(rng, target, 0, Some((0, 0)));
+    let p0 = gen((1, 0));
+    let (Some((t1, last)), Some((t2, _)), Some((t3, _))) = (measure(&p0, k), measure(&gen((1001, 0)), k), measure(&gen((1, 10)), k)) else { return p0 };
+    let per_iter = (t2 - t1) / 1000;
+    let per_fill = (t3 - t1) / 10;
+    if per_iter == 0 || per_fill == 0 || last == 0 {
+        return p0;
+    }
+    // want: total_before_last in (m*2M - last, m*2M) for the next multiple m above t1
+    let m = t1 / SYNC_INTERVAL + 1;
+    let goal = m * SYNC_INTERVAL - 1 - (rng.below(last.min(per_fill).max(1)));
+    let need = goal.saturating_sub(t1);
+    let n = need / per_iter;
+    let rest = need - n * per_iter;
+    let f = rest / per_fill;
+    let p = gen((1 + n as u32, f as u32));
+    match measure(&p, k) {
+        Some((t, l)) if t / SYNC_INTERVAL < (t + l) / SYNC_INTERVAL => Prog { desc: format!("{} tuned: last instruction crosses {}", p.desc, (t + l) / SYNC_INTERVAL * SYNC_INTERVAL), shape: [p.shape[0], p.shape[1], 2, 0], ..p },
+        _ => p,
     }
 }
 
@@ -301,8 +373,8 @@ pub fn traced_run(elf_path: &str, args: &str, with_twin: bool, max_ticks: u64) -
         // ---- advance the twin by one run-loop iteration
         let k = t.k.unwrap_or(3);
         let r = catch_unwind(AssertUnwindSafe(|| -> Result<u8, String> {
-            twin.cpu.verif_try_interrupt().map_err(|e| e.to_string())?;
-            let s = twin.cpu.verif_step().map_err(|e| e.to_string())?;
+            twin.cpu.verif_try_interrupt().map_err(|e| format!("{:#}", e))?;
+            let s = twin.cpu.verif_step().map_err(|e| format!("{:#}", e))?;
             Ok(s)
         }));
         match r {
@@ -345,6 +417,17 @@ pub fn traced_run(elf_path: &str, args: &str, with_twin: bool, max_ticks: u64) -
         let sum = rig.cpu.verif_state_sum() as u64;
         match (&t.twin_done, &end) {
             (Some(RunEnd::Ok), RunEnd::Ok) => {
+                // the state the run loop leaves behind equals the twin's after its last instruction
+                // (registers, flags, timer registers as seen by the peripherals, pending requests)
+                if let Some(tw) = &twin_rig {
+                    let twin = tw.borrow();
+                    if twin.cpu.er != rig.cpu.er || twin.cpu.verif_ccr() != rig.cpu.verif_ccr() || twin.cpu.verif_pc() != rig.cpu.verif_pc() {
+                        findings.push(("final-state".into(), format!("run() ended with PC={:06x} CCR={:02x} ER={:x?}; twin ended with PC={:06x} CCR={:02x} ER={:x?}", rig.cpu.verif_pc(), rig.cpu.verif_ccr(), rig.cpu.er, twin.cpu.verif_pc(), twin.cpu.verif_ccr(), twin.cpu.er)));
+                    }
+                    if timer_regs(&twin.cpu) != timer_regs(&rig.cpu) || twin.cpu.verif_pending() != rig.cpu.verif_pending() {
+                        findings.push(("peripheral-time".into(), format!("after the last instruction the timer registers are {:02x?} (pending {:?}); a twin whose peripherals saw every charged state has {:02x?} (pending {:?})", timer_regs(&rig.cpu), rig.cpu.verif_pending(), timer_regs(&twin.cpu), twin.cpu.verif_pending())));
+                    }
+                }
                 let k = t.k.unwrap_or(3);
                 let delta = sum.wrapping_sub(t.sum);
                 if delta != k * t.last_states as u64 {
@@ -356,7 +439,8 @@ pub fn traced_run(elf_path: &str, args: &str, with_twin: bool, max_ticks: u64) -
                 }
             }
             (Some(RunEnd::Err(e1)), RunEnd::Err(e2)) => {
-                if e1 != e2 {
+                // "that error": the failing instruction's error, possibly wrapped in more context
+                if !(e2.contains(e1.as_str()) || e1.contains(e2.as_str())) {
                     findings.push(("error-identity".into(), format!("run returned error {:?}, the failing instruction's error is {:?}", e2, e1)));
                 }
             }
@@ -389,7 +473,10 @@ pub fn c13_case(rep: &mut Report, seed: u64, verbose: bool) -> bool {
         4 => 5_900_000 + rng.below(400_000),
         _ => 500_000 + rng.below(7_000_000),
     };
-    let prog = gen_prog(&mut rng, target, plant);
+    // one program in three (no planted fault) is tuned so that its LAST instruction is the one that
+    // carries the state count across a multiple of 2,000,000
+    let tuned = plant == 0 && rng.chance(1, 3);
+    let prog = if tuned { tune_to_threshold(&mut rng, target.min(2_500_000)) } else { gen_prog(&mut rng, target, plant) };
     let elf = simple_elf(&prog.image, 64, prog.exit_vaddr, 0x400, seed);
     let path = scratch_path(&format!("c13-{}.elf", seed));
     std::fs::write(&path, &elf).expect("write elf");
